@@ -276,6 +276,19 @@ let () =
       Printf.sprintf "ev=%d unpred=%s recon=%s" (if ev then 1 else 0) (hz unp) (sl (List.map (fun r -> if sg then to_unsigned w r else r) rs))
     | _ -> failwith "intk")
 
+(* ---------------- C01 ---------------- *)
+let () =
+  (* fk1 / dk1 <abs bound as double bits> <intervals> <values as bit patterns>: 1-D SZ-1.4 kernel *)
+  let show ((((rs, nex), (((nz, mir), okp), oke)), req), med) =
+    Printf.sprintf "unpred=%s nz=%d mirror=%d okpred=%d okexact=%d req=%s median=%s recon=%s" (hz nex)
+      (if nz then 1 else 0) (if mir then 1 else 0) (if okp then 1 else 0) (if oke then 1 else 0) (hz req) (hz med) (sl rs) in
+  reg "fk1" (fun a -> match a with
+    | [e; iv; vals] -> show (frun1 (z_of_hex e) (z_of_hex iv) (zlist_of_string vals))
+    | _ -> failwith "fk1");
+  reg "dk1" (fun a -> match a with
+    | [e; iv; vals] -> show (drun1 (z_of_hex e) (z_of_hex iv) (zlist_of_string vals))
+    | _ -> failwith "dk1")
+
 let () =
   (try
     while true do
